@@ -79,6 +79,22 @@ func (s *stress) newVal(key int) *sval {
 
 var stressOn atomic.Bool
 
+// LoadOrStore calls that started over (yield point 7) in the current stress case; a call that
+// starts over without end would overflow the stack, so the hook ends the goroutine instead
+var stressRetries atomic.Int64
+var stressCur atomic.Pointer[stress]
+
+const stressRetryLimit = 200000
+
+func stressRetryHook() {
+	if stressRetries.Add(1) > stressRetryLimit {
+		if s := stressCur.Load(); s != nil {
+			s.fail("no-quiescence", fmt.Sprintf("stress: LoadOrStore started over more than %d times", stressRetryLimit))
+		}
+		runtime.Goexit()
+	}
+}
+
 func parseStress(f []string) (seed uint64, nt, iters, nk int, mode byte, ok bool) {
 	if len(f) != 6 || len(f[1]) > 9 || len(f[5]) != 1 || (f[5] != "a" && f[5] != "b") {
 		return
@@ -111,6 +127,8 @@ func runStress(f []string) core.Outcome {
 		return core.Outcome{Impl: "bad-op", Tags: []string{"malformed", "trivial"}}
 	}
 	s := &stress{up: caddy.NewUsagePool(), nk: nk, fails: map[string]string{}, byKey: make([][]*sval, nk)}
+	stressRetries.Store(0)
+	stressCur.Store(s)
 	stressOn.Store(true)
 	defer stressOn.Store(false)
 	var wg sync.WaitGroup
